@@ -1,5 +1,5 @@
 (* C14 -- Graphs returned by the parsers are closed and consistently linked. *)
-From Fences Require Import GraphSpec GraphLinks GraphOps GraphResolve.
+From Fences Require Import GraphSpec GraphLinks GraphOps GraphResolve GraphOptLinks Regex Grammar GrammarLinks.
 
 (* add_transition keeps both directions in step: every graph built with the public API records
    each parent/child link on both ends with the right child index *)
@@ -52,3 +52,29 @@ Example C14_nonvacuous :
               AddT 0 1; AddT 2 3; AddT 2 4] in
   exists g', resolve 20 (build ops) 0 [2] = Ok (g', 0) /\ outs_of g' 0 = [2] /\ outs_of g' 2 = [3; 2].
 Proof. eexists. split; [vm_compute; reflexivity|split; reflexivity]. Qed.
+
+(* optimize() after resolve(): no Reference becomes reachable, every reachable node stays linked on both ends
+   (the front ends call resolve() and then optimize()) *)
+Theorem C14_resolve_then_optimize : forall fuel g r g',
+  outs_ok g -> ins_ok_nr g -> (forall x, reach g r x -> is_ref g x = false) ->
+  optimize fuel g r = Ok g' ->
+  forall x, reach g' r x -> LC g' x /\ is_ref g' x = false.
+Proof.
+  intros fuel g r g' OO IN NR H x R. split.
+  - exact (optimize_links_resolved fuel g r g' OO IN NR H x R).
+  - exact (optimize_closed_resolved fuel g r g' OO IN NR H x R).
+Qed.
+Print Assumptions C14_resolve_then_optimize.
+
+(* The grammar front end, for every grammar and start symbol: at every node reachable from the root of the graph that
+   the model of convert() returns, every incoming record names a decision whose transition of that index leads to the
+   node, every outgoing transition is recorded at its target with the right index (the two checks of
+   fences.core.debug.check_consistency), and the node is not a Reference. *)
+Theorem C14_grammar_output : forall fuel G start st r,
+  parse_grammar fuel G start = Ok (st, r) ->
+  forall x, reach (b_graph st) r x ->
+    ((forall s i, In (s, i) (ins_of (b_graph st) x) -> is_dec (b_graph st) s = true /\ nth_error (outs_of (b_graph st) s) i = Some x) /\
+     (forall i t, nth_error (outs_of (b_graph st) x) i = Some t -> In (x, i) (ins_of (b_graph st) t))) /\
+    is_ref (b_graph st) x = false.
+Proof. exact parse_grammar_links. Qed.
+Print Assumptions C14_grammar_output.
